@@ -277,7 +277,7 @@ def run(ctx):
             q = reqs.get(date)
             n_up += 1
             if q is None:
-                if exp['up5'] and v['sampled']:
+                if exp['up5'] and v['mustsend']:
                     viol(ctx, '%s:uploader:no-report-although-approved-data' % P, detail, 'no report posted for %s' % date)
                 else:
                     n_up_ok += 1
